@@ -8,7 +8,7 @@ import operator as pyop
 from vlib.anchoring import Taint, find_sites
 from vlib.core import AnalysisError, Report
 from vlib.nodemodel import NodeModel
-from vlib.match import FI, X, atoms, closure, has_call, nodes
+from vlib.match import FI, X, atoms, closure, has_call, nodes, resolved_returns
 from vlib.srcindex import SourceIndex, attr_chain, const_str, unparse, walk_no_nested
 
 EXPLANATION = (
@@ -175,7 +175,7 @@ def rule_b(rep: Report, idx: SourceIndex) -> None:
 	def _const_bool(f) -> bool:
 		if f is None:
 			return False
-		rets = [n.value for n in nodes(FI(f), ast.Return) if n.value is not None]
+		rets = resolved_returns(f)
 		return bool(rets) and all(any(unparse(c_.func).endswith('from_standard') and [unparse(a) for a in c_.args] == ['bool'] for c_ in nodes(v, ast.Call)) for v in rets) and not has_call(closure(f), 'each_binary_operator')
 	cmp_const = all(_const_bool(pr.method(h)) for h in cmp_handlers)
 	arth = c.method('arthmetical')
@@ -303,9 +303,8 @@ def rule_c(rep: Report, idx: SourceIndex) -> None:
 			continue
 		# the outermost from_standard(...) whose result is stacked on the node
 		tops = []
-		for n in ast.walk(f.node):
-			if isinstance(n, ast.Return) and n.value is not None:
-				e = n.value
+		for e in resolved_returns(f):
+			if True:
 				# unwrap `.stack(node)`, `.extends(...)`, `x.to(node, Y)`
 				while isinstance(e, ast.Call) and isinstance(e.func, ast.Attribute) and e.func.attr in ('stack', 'extends'):
 					e = e.func.value
